@@ -757,6 +757,9 @@ func checkAloneAcrossOutputs(sh shape) (string, string) {
 // ---------------------------------------------------------------------------------------------------------------------
 
 func enumerate(ctx *seq.Ctx) {
+	// part 3 comes first: a mutation may end a worker PROCESS by a panic in a goroutine of the shipped pipeline; the death is
+	// attributed to the case in flight, but the results the process had collected until then are lost
+	enumerateReal(ctx)
 	ctx.Group("alone/across-outputs")
 	for _, sh := range shapes {
 		sh := sh
@@ -853,7 +856,6 @@ func enumerate(ctx *seq.Ctx) {
 		}
 	}
 	enumerateOrchestrated(ctx)
-	enumerateReal(ctx)
 	ctx.Note(fmt.Sprintf("pool-reuse/worker-pid-%d", os.Getpid()), fmt.Sprintf("%d records processed in sequences, %d reused *LogRecord, %d reused backing buffers, %d cases with reuse below the pool model's expectation", poolStats.records, poolStats.recHits, poolStats.bufHits, poolStats.belowExpectation))
 	ctx.Note(fmt.Sprintf("orchestrated/worker-pid-%d", os.Getpid()), fmt.Sprintf("%d cases through the real orchestrators with the harness's stage: %d lines, %d pipelines, %d chunks (%d cases with more than one chunk of one output of one pipeline), %d reused *LogRecord, %d reused backing buffers; %d cases through StartOrchestrator (shipped worker goroutine and hybrid buffer): %d chunks, %d of them read back from the queue directories, %d cases with more than one chunk of an output",
 		ostats.cases, ostats.records, ostats.pipelines, ostats.chunks, ostats.multiChunkCases, ostats.recHits, ostats.bufHits, rstats.cases, rstats.chunks, rstats.diskChunks, rstats.multiChunkCases))
@@ -885,7 +887,7 @@ func main() {
 				"x output sets {fluentd, fluentd+fluentd, fluentd+datadog, datadog} x feeding modes {one connection flush-per-record, one connection single flush, two connections alternating (thorough: + two connections single flush)} on one fresh long-lived pipeline behind the real parser sink; plus all sequences of length 2..4 over 5 pooled/short shapes x every placement of flush pauses; " +
 				"each record's decoded output (all fields incl. nested environment, tag, exact timestamp) is compared per output with the same record processed alone on a fresh pipeline; plus per shape: identically configured outputs agree, and an output gives the same record alone or next to another output. " +
 				"PART 2 (the REAL orchestrators obykeyset / osingleton between the real parser sink and the stage; widened input stage: visible multi-part addFields, extract, mapValue, truncate, replace, redactEmail, unescape and a 100% drop among the input extractions): every ordered pair with repetition and every single line over a menu of 29 lines (25 record shapes: two distinct shapes for every stateful path, three pooled shapes of one size class two of which are the first of their key set, input-stage drop short and pooled; 4 malformed lines short and pooled) " +
-				"x orchestration {byKeySet keys [app] tag test.$app, byKeySet keys [app] tag $app, singleton; thorough: + byKeySet keys [app,host]} x output sets {fluentd Forward, fluentd+datadog, datadog, fluentd CompressedPackedForward; thorough: + fluentd+fluentd, compressed+datadog} " +
+				"x orchestration {byKeySet keys [app] tag test.$app, byKeySet keys [app] tag $app, singleton; thorough: + byKeySet keys [app,source]} x output sets {fluentd Forward, fluentd+datadog, datadog, fluentd CompressedPackedForward; thorough: + fluentd+fluentd, compressed+datadog} " +
 				"x schedules {flush per line with the stage keeping up / lagging one batch behind / orchestrator sink holding everything until close, single flush, two connections alternating keeping up / lagging; chunks cut after every batch or only at the end; thorough: + 3 more}; triples over a reduced menu of 10 lines (quick; thorough: all triples of the full menu and every placement of flush pauses x stage runs x cut policy x {1,2} connections over the reduced menu). " +
 				"Per case: every chunk of every pipeline is kept as handed out and decoded only at the end (a queued chunk must not change); records are assigned to lines by the PID field; each record equals the record alone (differential), its tag and pipeline ID are the documented expansion of its OWN key values (absolute), the pipeline's tag / ID strings read at the end as at creation, a record does not change while it waits in the orchestrator, no *LogRecord is handed over twice, the batch slice is overwritten after Accept returns, the line buffer is overwritten after every call; every per-record counter series (labels included) is the sum of the series of the records alone and every orchestration key label is a key value of a record of the sequence. " +
 				"PART 3 (Config.StartOrchestrator: shipped LogProcessingWorker goroutine, PrepareSequentialPipeline, hybrid buffer; only the consumer is the harness's): every ordered pair of the 29 lines x {byKeySet+fluentd+datadog, singleton+fluentd+datadog, byKeySet($app)+compressed, singleton+compressed} x {2 ms flush interval with pauses, 1 h flush interval without pauses} (thorough: more combinations, two connections), same oracle, chunks taken from the consumer and from the queue directories. " +
